@@ -526,8 +526,12 @@ pub fn run_c08(s: &mut Sink) {
                     s.cut("helper calls");
                     return;
                 }
-                for depth in 0..=3u8 {
+                for depth in [0u8, 1, 2, 3, 8] {
                     if depth > 0 && eng == Eng::Cl && !(regset == 0b1111 && id == 1) {
+                        continue;
+                    }
+                    // depth 8: the innermost function of the deepest legal chain (one id, all registered)
+                    if depth == 8 && !(regset == 0b1111 && (id == 10 || id == 0xffff_ffff)) {
                         continue;
                     }
                     for earlier in 0..=2u8 {
@@ -553,6 +557,9 @@ pub fn run_c08(s: &mut Sink) {
                             }
                         }
                         for (ctx, rebind, reload, nested) in variants {
+                            if depth == 8 && (ctx != 0 || nested != 0) {
+                                continue;
+                            }
                             if (ctx == 5 || ctx == 19) && depth > 1 {
                                 continue; // frames of 256 bytes: below depth 1 there is no stack left to store in
                             }
